@@ -244,6 +244,21 @@ def many_inline_lists():
     return doc("Many", sch, {"/c": {"get": {"operationId": "getCustomer", "responses": {"200": jresp(R("Customer"))}}}})
 
 
+def odd_but_legal():
+    """an undeclared path variable on an operation with a required body; enums that repeat a value; one response offering a stream and JSON;
+    a deprecated operation"""
+    return doc("Odd", {
+        "Note": {"type": "object", "required": ["text"], "properties": {"text": {"type": "string"}, "level": {"type": "string", "enum": ["low", "high", "low", "mid"]}}},
+        "Colour": {"type": "string", "enum": ["red", "green", "red", "blue", "green"]},
+        "Event": {"type": "object", "properties": {"kind": {"type": "string"}, "colour": R("Colour")}},
+    }, {
+        "/books/{bookId}/notes": {"post": {"operationId": "addNote", "requestBody": {"required": True, "content": {"application/json": {"schema": R("Note")}}},
+                                           "responses": {"201": jresp(R("Note"))}}},
+        "/events": {"get": {"operationId": "watchEvents", "deprecated": True, "responses": {"200": {"description": "ok", "content": {
+            "text/event-stream": {"schema": R("Event")}, "application/json": {"schema": R("Event")}}}}}},
+    })
+
+
 REP = {
     "petstore": petstore,
     "unions": enums_and_unions,
@@ -259,6 +274,7 @@ REP = {
     "synthetic": synthetic_name_collisions,
     "numeric_mapping": numeric_mapping_keys,
     "many_lists": many_inline_lists,
+    "odd": odd_but_legal,
     "no_ops": no_operations,
     "no_schemas": no_schemas,
 }
